@@ -122,6 +122,17 @@ def _bounded_copyall(tier, seed):
              'T154N-R97W the north part of Section,', 'T154N-R97W: all lands lying north of the river.', 'Sec 14 only, no township;',
              'T154N-R97W Sec 14 NE/4, Sec 15 W/2', '', 'and of the T154N-R97W Section NE/4 in', 'Township 154 North, Range 97 West\nSec 14: NE/4 and',
              '154N-97W Sec 14: less and except the wellbore of']
+    import random
+    from props import gen
+    rng = random.Random(seed)
+    n = 40 if tier == 'quick' else 1200
+    texts = texts + ['T154N-R97W Sec 24 - 27: S/2, Sec 28: N/2', 'Sec 24 - 27: S/2', 'T154N-R97W Sec 24 - 27 S/2', 'T154N-R97W NE/4',
+                     'The W/2 of the tract, T154N-R97W']
+    texts = texts + gen.token_soup(rng, n, max_tokens=9)
+    for desc in gen.abstract_descriptions(rng, n // 4):
+        w = gen.render(desc, rng.choice(gen.LAYOUTS), twp_style=rng.randrange(6), sec_word=rng.choice(gen.SEC_WORDS), colon=rng.random() < 0.6)
+        texts.append(w)
+        texts.append(w[:rng.randrange(len(w) + 1)])
     for text in texts:
         for chan in ('init keyword', 'config', 'parse argument'):
             for extra in ('', 'segment', 'sec_within', 'sec_colon_required'):
@@ -167,7 +178,8 @@ def _bounded_copyall(tier, seed):
         if len(d.tracts) != 1 or d.tracts[0].desc != d.pp_desc or (d.tracts[0].trs_is_error() and not d.e_flags):
             bad({'text': text, 'config': cfg, 'case': 'fallback'}, [(t.trs, t.desc) for t in d.tracts], [d.pp_desc])
     return {'evaluations': ev, 'distinct_nontrivial': len(distinct), 'violations': violations, 'samples': samples, 'exhaustive': False,
-            'bound': f"{len(texts)} texts (with / without Twp/Rge, section, colons; leading / trailing separators) x 3 channels x 4 extra settings",
+            'bound': f"{len(texts)} texts (hand-picked with / without Twp/Rge, section, colons, leading / trailing separators; token soup; rendered "
+                     "descriptions whole and truncated) x 3 channels x 4 extra settings",
             'rule': "forced copy_all gives exactly one tract whose description is pp_desc; fallbacks carry an error flag; never two "
                     "tracts with the whole text; non-trivial = distinct (text, channel, setting)"}
 
